@@ -717,7 +717,7 @@ pub fn c12(case_seed: u64, acc: &mut Acc) {
 pub const META_C20: Meta = Meta {
     id: "C20",
     level: "exploration",
-    rule: "Metamorphic monitor: a base text (generated programs of profiles flow / expr / expand / random-free, plus a pool of token-boundary hazards: identifiers looper end1 bitsy letx, 0x1F next to an identifier, a<<b, a< <b (invalid), a!=b, a! =b (invalid)) and 4 (quick) / 8 (thorough) re-laid-out variants composed at random from: change every blank run between tokens to 1-4 of {space, tab, CR}; delete blank runs where the harness tokenizer certifies the neighbours do not fuse; append # comments (with #, non-ASCII, CR) to lines after the header; insert blank / comment-only lines after the header; LF -> CRLF; rewrite integer literals in another radix / letter case with the same value. Every variant is certified by re-tokenising: its token sequence (kinds + lexemes, numbers by value, blank lines collapsed) must equal the base's, otherwise it is discarded and counted. Oracle: accepted/rejected verdicts equal; every item of the two row streams equal (inputs incl. changed, outputs, expected, errors), except that `line` must be shifted by exactly the number of lines inserted above that row. Non-trivial = variant differs from its base in >= 3 places and the base yields >= 2 rows or is rejected after a valid header.",
+    rule: "Metamorphic monitor: a base text (generated programs of profiles flow / expr / expand / random-free, plus a pool of token-boundary hazards: identifiers looper end1 bitsy letx, 0x1F next to an identifier, a<<b, a< <b (invalid), a!=b, a! =b (invalid)) and 4 (quick) / 8 (thorough) re-laid-out variants composed at random from: change every blank run between tokens to 1-4 of {space, tab, CR}; delete blank runs where the harness tokenizer certifies the neighbours do not fuse; append # comments (with #, non-ASCII, CR) to lines after the header; insert blank / comment-only lines after the header; LF -> CRLF; rewrite integer literals in another radix / letter case with the same value. 2% of the cases are instead a radix family: one number at the edge of the 64-bit range (2^62 .. 2^64+1000) spelled in decimal, hex (both letter cases, with leading zeros), binary and octal inside three program shapes - from_str must give the same verdict for every spelling, and the same rows where it accepts. Every variant is certified by re-tokenising: its token sequence (kinds + lexemes, numbers by value, blank lines collapsed) must equal the base's, otherwise it is discarded and counted. Oracle: accepted/rejected verdicts equal; every item of the two row streams equal (inputs incl. changed, outputs, expected, errors), except that `line` must be shifted by exactly the number of lines inserted above that row. Non-trivial = variant differs from its base in >= 3 places and the base yields >= 2 rows or is rejected after a valid header.",
     assumptions: &["the harness tokenizer decides what `the same token sequence` means"],
     quick_cases: 40000,
     thorough_cases: 1000000,
@@ -900,9 +900,85 @@ fn collapse(v: Vec<String>) -> Vec<String> {
     o
 }
 
+/// One number at the edge of the 64-bit range spelled in every radix and letter case: the
+/// spellings are re-layouts of one another ("other radix / case for the same number"), so
+/// `from_str` must give the same verdict for all of them, and the same rows where it accepts.
+fn c20_radix_family(case_seed: u64, r: &mut Prng, acc: &mut Acc) {
+    let v: u128 = match r.below(10) {
+        0 => (1u128 << 63) - 1,
+        1 => 1u128 << 63,
+        2 => (1u128 << 63) + r.below(1000) as u128,
+        3 => (1u128 << 64) - 1,
+        4 => 1u128 << 64,
+        5 => (1u128 << 62) + r.next_u64() as u128 % (1u128 << 62),
+        6 => (1u128 << 63) | (r.next_u64() as u128),
+        7 => (1u128 << 64) + r.below(1000) as u128,
+        8 => (r.next_u64() >> 1) as u128,
+        _ => r.next_u64() as u128,
+    };
+    let spellings = vec![
+        format!("{v}"),
+        format!("0x{v:x}"),
+        format!("0x{v:X}"),
+        format!("0X{v:x}"),
+        format!("0b{v:b}"),
+        format!("0B{v:b}"),
+        format!("0{v:o}"),
+        format!("0x0{v:x}"),
+        format!("0b000{v:b}"),
+        format!("00{v:o}"),
+    ];
+    let shape = r.below(3);
+    let text = |lit: &str| match shape {
+        0 => format!("A Q\n{lit} X\n1 X\n"),
+        1 => format!("A Q\n({lit} >> 60) X\n1 X\n"),
+        _ => format!("A Q\nlet a = {lit};\n(a & 0xFF) X\n"),
+    };
+    let sigs = vec![Sig { name: "A".into(), bits: 64, kind: SigKind::In(InVal::V(0)) }, Sig { name: "Q".into(), bits: 64, kind: SigKind::Out }];
+    let script = Script { layout: vec![1], values: ValueFn::Unique { salt: 3, narrow: false }, faults: vec![], override_write: false, rebuild_signals: false };
+    let opts = RunOpts { max_steps: 20, probe_after_end: 0, stop_at_error: true, seed: Some(1), continue_on: None };
+    let base_text = text(&spellings[0]);
+    let b = run_text(&base_text, &sigs, &script, &opts);
+    acc.evaluations += 1;
+    if no_panic(&b).is_some() {
+        acc.inconclusive("base panics (C09/C10)");
+        return;
+    }
+    let items = |t: &RealTrace| t.steps.iter().map(|s| s.item.clone()).collect::<Vec<_>>();
+    for sp in &spellings[1..] {
+        let t = text(sp);
+        let o = run_text(&t, &sigs, &script, &opts);
+        acc.evaluations += 1;
+        let case = || json!({"base": base_text, "variant": t, "signals": sigs, "script": script});
+        if let Some(p) = no_panic(&o) {
+            acc.violation(case_seed, "radix", Finding::new(p.signature.clone(), format!("the spelling {sp} panics where the decimal spelling does not: {}", p.detail)), case());
+            return;
+        }
+        if (b.parse.is_ok(), b.bind.is_ok()) != (o.parse.is_ok(), o.bind.is_ok()) {
+            acc.violation(
+                case_seed,
+                "radix",
+                Finding::new("layout-changes-verdict", format!("the number {v} is {} in decimal but {} as {sp}", if b.parse.is_ok() { "accepted" } else { "rejected" }, if o.parse.is_ok() { "accepted" } else { "rejected" })),
+                case(),
+            );
+            return;
+        }
+        if b.parse.is_ok() && items(&b) != items(&o) {
+            acc.violation(case_seed, "radix", Finding::new("layout-changes-rows", format!("the number {v} gives other rows as {sp} than in decimal")), case());
+            return;
+        }
+    }
+    acc.held += 1;
+    acc.event("radix_families_compared", 1);
+    acc.tag(if b.parse.is_ok() { "radix_family_accepted" } else { "radix_family_rejected" });
+}
+
 pub fn c20(case_seed: u64, tier_variants: usize, acc: &mut Acc) {
     let mut r = Prng::new(case_seed);
     acc.cases += 1;
+    if r.chance(20, 1000) {
+        return c20_radix_family(case_seed, &mut r, acc);
+    }
     let (base, sigs, script, seed) = if r.chance(1, 12) {
         let b = r.pick(&HAZARD_BASES).to_string();
         let first = b.lines().next().unwrap().split(' ').next().unwrap().to_string();
